@@ -17,10 +17,12 @@ def build_spec():
     from . import c_exit_arrival, c_simulation
     c_exit_arrival.declare_arrivals(spec)
     c_simulation.declare_loops(spec)
+    from . import c_schedules
+    c_schedules.declare_node_side(spec)
     return spec
 
 
-MODULES = ["c_auxiliary", "c_assumed", "c_node", "c_exit_arrival", "c_simulation", "c_dists", "c_trackers", "c_routing", "c_preempt", "c_schedules", "c_init"]
+MODULES = ["c_auxiliary", "c_assumed", "c_node", "c_exit_arrival", "c_simulation", "c_dists", "c_trackers", "c_routing", "c_preempt", "c_schedules", "c_init", "c_exact"]
 
 
 def add(spec, target, **kw):
